@@ -75,8 +75,11 @@ Definition enc_tfdt_body (d : tfdt) : list N :=
   be32 (u32 (td_version d * 16777216)) ++
   (if td_version d =? 0 then be32 (u32 (td_base d)) else be64 (u64 (td_base d))).
 
+(* TfdtBox.Size(): 20 for every version but 0 (C05FragModel.tfdt_size is that for versions 0 and 1) *)
+Definition atfdt_size (d : tfdt) : N := if td_version d =? 0 then 16 else 20.
+
 Definition aenc_tfdt (d : tfdt) : res (list N) :=
-  do hd <- enc_hdr TY_TFDT (tfdt_size d); Ok (hd ++ enc_tfdt_body d).
+  do hd <- enc_hdr TY_TFDT (atfdt_size d); Ok (hd ++ enc_tfdt_body d).
 
 (* TrunBox.EncodeSW: the loop runs over SampleCount() = uint32(len(Samples)) samples *)
 Definition trun_count (r : trun) : N := u32 (lenN (tr_samples r)).
@@ -99,7 +102,7 @@ Definition atraf := list tchild.
 
 Definition tc_size (c : tchild) : N :=
   match c with
-  | TcTfhd h => tfhd_size h | TcTfdt d => tfdt_size d | TcTrun r => trun_size r | TcOther o => ob_size o
+  | TcTfhd h => tfhd_size h | TcTfdt d => atfdt_size d | TcTrun r => trun_size r | TcOther o => ob_size o
   end.
 
 Definition tc_enc (c : tchild) : res (list N) :=
